@@ -22,7 +22,7 @@ def rx(name, crossbeam, wait, empty_err):
     return Fn(F, ["impl OsIpcReceiver", name], ret="r", extra_params=TX,
         requires=[Clause("inprocess.%s/requires.receiver_not_moved_out" % name, "old(self).receiver.v is Some && old(x).q.contains_key(old(self).receiver.v->0.chan)".replace("old(self)", "self"))],
         ensures=ens,
-        rules=[AppendArg("B90", r"\br\.%s\(" % crossbeam, XG, "crossbeam receive stub over the ideal FIFO queue", min_count=1), WRAP],
+        rules=[AppendArg("B90", r"\br\.(?:recv|try_recv|recv_timeout)\(", XG, "crossbeam receive stub over the ideal FIFO queue", min_count=1), WRAP],
         safety_props=["C19"])
 
 recv = rx("recv", "recv", "old(x).waits.push((%s, None))" % CH, "false")
